@@ -12,7 +12,8 @@ Oracle (reference state machine written from the property, independent of the mo
 time; iterate/iterate_n/run report "unfinished" exactly until the reference completion step; is_complete is
 False after setup and True from completion on; outputs are prefixes of / equal to the fresh-process trajectory;
 get_output is repeatable; finalize any number of times; a new set-up behaves like a fresh process; each engine
-object behaves as if it were alone.
+object behaves as if it were alone (also through a shared RDScript object: set-up never changes the caller's script);
+simulate_script() drives a simulation that needs several run(1000) slices (about 2 s of wall time, calibrated) to completion.
 """
 import json
 from fractions import Fraction
@@ -27,7 +28,8 @@ GEN_GROUPS = ["EngineCpp", "ScriptPy", "EngineLife"]
 RULE = ("histories of lifecycle calls (setup / iterate / iterate_n(k) / run(0|1 ms) / sample / get_progress / is_complete / get_output / "
         "finalize) starting with setup: one engine object respecting the documented lifecycle (quick: sampled, length <= 6; thorough: "
         "also random up to length 40), two objects with non-overlapping live intervals, two objects with overlapping ones, calls on "
-        "a released engine, iterate_n(k<=0) after completion; scripts: 3 engines x grid/graph x 4 policies incl. species totals "
+        "a released engine, iterate_n(k<=0) after completion, one RDScript object (quantity unit mol / µmol) set up on two engine objects "
+        "and again on the first, simulate_script on a run of ~2 s; scripts: 3 engines x grid/graph x 4 policies incl. species totals "
         "below one molecule; non-trivial when the history has >= 3 calls; distinct by (scripts, calls)")
 ASSUMPTIONS = [
     "a call that prints nothing for 6 s (quick) on these tiny systems is a hang (reference runs take milliseconds)",
@@ -51,8 +53,10 @@ def make_pool(ctx, n, kind="plain", degenerate=False):
         option = lc.OPTIONS[i % 3]
         sub = (option != "euler") and rng.random() < 0.35
         forced0 = (i % 9 == 4)            # t_max exactly 0 ("just the initial state"), both space types
+        forced_q = (i % 5 == 3)
         S, info = lc.gen_script(rng, option, max_steps=24 if option != "gillespie" else 8, sub_molecule=sub,
-                                mode=("auto" if sub else None), units=(rng.random() < 0.3),
+                                mode=("auto" if sub else None), units=("force" if forced_q else rng.random() < 0.3),
+                                quantity=(rng.choice(["mol", "µmol"]) if forced_q else None),
                                 zero_tmax=(True if forced0 else None), space_kind=(["grid", "graph"][(i // 9) % 2] if forced0 else None),
                                 degenerate=(degenerate and rng.random() < 0.7))
         info["sub_molecule"] = sub
@@ -144,9 +148,9 @@ def rand_call(rng, obj, live, pool_opt, scripts, allow_zero_n=False):
 
 
 def gen_history(rng, hid, cls, pool_by_opt, length):
-    """cls: one | blocks | overlap | uaf | itn0"""
+    """cls: one | blocks | overlap | uaf | itn0 | shared"""
     opts = [o for o in lc.OPTIONS if pool_by_opt.get(o)]
-    nobj = 2 if cls in ("blocks", "overlap") else 1
+    nobj = 2 if cls in ("blocks", "overlap", "shared") else 1
     engines = [rng.choice(opts) for _ in range(nobj)]
     scripts = {}
     calls = []
@@ -194,6 +198,19 @@ def gen_history(rng, hid, cls, pool_by_opt, length):
             if c["call"] in ("setup", "finalize"):
                 continue
             calls.append(c)
+    elif cls == "shared":
+        # ONE RDScript object (the child builds one object per script index) set up on two engine objects one after the
+        # other, and again on the first: each must return what it returns when it is the only user of the script
+        withq = [o for o in opts if o != "euler" and any(p["info"]["quantity"] != "molecule" for p in pool_by_opt[o])]
+        opt = rng.choice(withq or opts)
+        engines = [opt, opt]
+        cand = [p for p in pool_by_opt[opt] if p["info"]["quantity"] != "molecule"] or pool_by_opt[opt]
+        p = rng.choice(cand)
+        scripts[p["idx"]] = 0
+        for obj in rng.choice([[0, 1, 0], [0, 1], [0, 0], [1, 0, 1]]):
+            calls += [{"obj": obj, "call": "setup", "script": 0, "pool": p["idx"], "peek": True},
+                      {"obj": obj, "call": "iterate_n", "n": 1000, "peek": True}, {"obj": obj, "call": "get_output"},
+                      {"obj": obj, "call": "finalize"}]
     elif cls == "uaf":
         p = rng.choice(pool_by_opt[engines[0]])
         scripts[p["idx"]] = 0
@@ -234,6 +251,12 @@ def reference_machine(job, pool_by_idx, results):
             st[o] = {"ref": ref, "n": 0, "unfinished": True, "manual": False, "live": True}
             if r.get("T") != 0.0:
                 bad.append((i, "setup-clock", "clock after setup is %r" % r.get("T"), r.get("T"), 0.0))
+            for key, what, impl, exp in lc.init_failures(r):
+                bad.append((i, key, what, impl, exp))
+            if r.get("script_changed"):
+                ch = r["script_changed"][0]
+                bad.append((i, "setup-modifies-script", "setup() changed the caller's script (%s: %r -> %r): every later user of that script object is affected"
+                            % (ch["field"], ch["before"], ch["after"]), r["script_changed"][:3], []))
             continue
         if k == "is_complete":
             want = (not s["unfinished"]) if s is not None else False
@@ -393,10 +416,58 @@ def run(ctx):
     ctx.notes.append("independent_partial: holds for non-overlapping live intervals; the full statement is proved false (not_independent, "
                      "independent_is_false) = known finding two-engines-share-native")
     explore(ctx, ctx.n(45, 900), ctx.n(300, 20000))
+    long_simulate(ctx, ctx.n(1, 4), 1.9 if ctx.tier == "quick" else 2.6)
     # the runner starts the failing-input search only when NO violation was reported; this check always reports the listed
     # known finding, so it starts the search itself when something is broken and nothing unlisted was found
     if ctx.broken and not _unlisted(ctx):
         search(ctx)
+
+
+def long_job(rng, jid, option, wall):
+    nA = 200 if option != "euler" else 7.5
+    sysd = {"network": {"species": [{"label": "A", "density": 0, "D": 1.0}, {"label": "B", "density": 0, "D": 0.5}],
+                        "reactions": [{"eq": "A -> B", "k+": 0.3, "k-": 0.1}], "environments": ["a"]},
+            "space": {"type": "grid", "w": 4, "h": 4, "d": rng.choice([2, 4]), "cell_volume": 1.0, "boundary_conditions": {"x": "periodical"}},
+            "state": None}
+    ncell = 16 * sysd["space"]["d"]
+    sysd["space"]["cell_env"] = [0] * ncell
+    sysd["state"] = [float(nA)] * ncell + [float(rng.choice([0, 3]))] * ncell
+    S = {"system": sysd, "kw": {"t_sample": [0.0], "time_step": 1e-3, "t_max": 1.0, "sampling_policy": "on_t_sample", "rng_seed": rng.randint(0, 2 ** 31 - 1)}}
+    return {"id": jid, "engines": [option], "scripts": [S], "timeout": 40, "long": True,
+            "calls": [{"obj": 0, "call": "simulate_long", "script": 0, "wall": wall}]}
+
+
+def long_oracle(r):
+    """simulate_script must drive the simulation to completion however many run(1000) slices that takes"""
+    if r["status"] != "ok":
+        return ("hang:simulate" if r["status"] == "timeout" else "crash:simulate"), "simulate_script did not return: %s" % r["status"], r["status"], "returns"
+    x = r["results"][0]
+    if "raised" in x:
+        return "raised", "simulate_script raised %s" % x["raised"], x["raised"], "no exception"
+    ret = x["ret"]
+    if ret["nsamples"] != 3 or not (ret["t"] and ret["t"][-1] >= ret["tmax"] * (1 - 1e-9)) or not ret["is_complete_after"]:
+        return ("simulate-truncated", "simulate_script() returned %d of the 3 requested samples (last record at t=%r, t_max=%r = %d steps, %.2f s of wall time): the "
+                "simulation was not run to completion" % (ret["nsamples"], ret["t"][-1] if ret["t"] else None, ret["tmax"], ret["nsteps"], ret["wall"]),
+                {"t": ret["t"], "is_complete": ret["is_complete_after"]}, {"t": [0.0, ret["tmax"] / 2, ret["tmax"]], "is_complete": True})
+    return None
+
+
+def long_simulate(ctx, n, wall):
+    rng = ctx.rng
+    jobs = [long_job(rng, "long%d" % i, ["euler", "tauleap"][i % 2], wall) for i in range(n)]
+    res = lc.run_jobs(jobs, kind="plain", chunk=1, parallel=min(n, 4), stall=30)
+    for j in jobs:
+        r = res[j["id"]]
+        case = {"job": {k: j[k] for k in ("id", "engines", "scripts", "calls", "long")}}
+        ret = r["results"][0].get("ret") if r["results"] else None
+        ctx.case(("long", j["id"], json.dumps(j["scripts"], sort_keys=True)), nontrivial=True,
+                 sample={"op": "simulate_long", "engine": j["engines"][0], "steps": ret and ret["nsteps"], "wall": ret and ret["wall"]})
+        ctx.count("long_simulations")
+        if ret:
+            ctx.count("long_simulations_over_1s" if ret["wall"] > 1.0 else "long_simulations_under_1s")
+        bad = long_oracle(r)
+        if bad:
+            ctx.violation(bad[0], bad[1], case, impl=bad[2], expected=bad[3])
 
 
 def _unlisted(ctx):
@@ -439,6 +510,10 @@ def explore(ctx, n_pool, n_hist, kind="plain", degenerate=False, long_histories=
             cls = "uaf"
         elif i == 2:
             cls = "itn0"
+        elif i in (3, 4):
+            cls = "shared"
+        elif r < 0.05:
+            cls = "shared"
         elif r < 0.72:
             cls = "one"
         elif r < 0.86:
@@ -549,6 +624,11 @@ def impl_tf(job, c, pool_by_idx):
 def replay(ctx, rec):
     case = rec.get("case", rec)
     job = dict(case["job"])
+    if job.get("long"):
+        job.setdefault("timeout", 40)
+        r = lc.run_jobs([job], kind="plain", parallel=1, stall=30)[str(job["id"])]
+        bad = long_oracle(r)
+        return (bad is None), {"result": r["results"][0].get("ret") if r["results"] else r["status"], "failure": bad and bad[1]}
     job.setdefault("timeout", 10)
     res = lc.run_jobs([job], kind="plain", parallel=1, stall=8)
     r = res[str(job["id"])]
@@ -557,6 +637,14 @@ def replay(ctx, rec):
               "stderr": r.get("stderr", "")[-500:], "recorded_failure": rec.get("what")}
     if r["status"] != "ok":
         return False, detail
+    inits = [f for x in r["results"] for f in lc.init_failures(x)]
+    if inits or str(rec.get("key", "")).split(":")[0] in ("buffer-length", "native-init-rc", "init-arguments"):
+        detail["marshalling"] = [{"key": f[0], "what": f[1]} for f in inits[:3]]
+        return (not inits), detail
+    changed = [x["script_changed"] for x in r["results"] if x.get("script_changed")]
+    if changed or rec.get("key") == "setup-modifies-script":
+        detail["script_changed"] = changed[:2]
+        return (not changed), detail
     # re-evaluate the recorded expectation when it concerns one call's return value
     exp, impl = rec.get("expected"), rec.get("impl")
     what = rec.get("what", "")
